@@ -178,6 +178,16 @@ prop('C12', 'model_checking',
      'depth-1 instances; two text classes per class; values are one canonical literal per declared type',
      'TLA+ table model + TLC + exhaustive replay over extracted schema tables', 'section 5 C12')
 
+prop('C13', 'model_checking',
+     'Schema.tla (mode validate) enumerates from the extracted class tables, for every class, the minimal valid instance and every '
+     'declared constraint violated in isolation (required attribute missing / empty, child one below its declared minimum or '
+     'one above its declared maximum, each class of wrong value for dateTime / boolean / integer kinds / duration attributes, '
+     'values outside an enumeration for attributes and text) with the contract "only the unmodified instance is valid"; every '
+     'variant is built with the real classes and run through validate.valid_instance at the root and nested under its possible '
+     'parents (3 in the quick tier, 40 in the thorough one)',
+     'the otherwise-valid instance is generated from the tables; classes with an overridden verify() are exempt from the '
+     'must-be-valid clause', 'TLA+ table model + TLC + exhaustive replay over extracted schema tables', 'section 5 C13')
+
 
 def main():
     props = [json.loads(l) for l in open(os.path.join(VERIF, 'properties.jsonl'))]
